@@ -3,8 +3,8 @@
 package main
 
 import (
-	"golang.org/x/crypto/bcrypt"
 	"fmt"
+	"golang.org/x/crypto/bcrypt"
 	"strings"
 	"sync"
 	"sync/atomic"
@@ -31,11 +31,11 @@ import (
 func init() { vfDrivers["C20"] = &vfDriver{Run: vfC20, QuickRuns: 400} }
 
 type vfC20Version struct {
-	Name    string
-	HT      map[string]string // user -> password (nil = the htpasswd version does not parse)
-	Emails  map[string]bool   // nil = the e-mails version does not parse
-	HTText  string
-	EmText  string
+	Name   string
+	HT     map[string]string // user -> password (nil = the htpasswd version does not parse)
+	Emails map[string]bool   // nil = the e-mails version does not parse
+	HTText string
+	EmText string
 }
 
 type vfC20Op struct {
@@ -49,13 +49,13 @@ type vfC20Op struct {
 }
 
 type vfC20Case struct {
-	Children int // goroutines the code under test started on its own (Mode A)
-	Waves      int
-	Ops        int
-	Reloads    int
-	Malformed  int
-	MaxPar     int
-	Flavour    string
+	Children  int // goroutines the code under test started on its own (Mode A)
+	Waves     int
+	Ops       int
+	Reloads   int
+	Malformed int
+	MaxPar    int
+	Flavour   string
 }
 
 // vfBcryptEntry: an htpasswd line with a bcrypt hash of minimal cost (the salt comes from the seeded crypto/rand).
